@@ -175,7 +175,7 @@ def run(ctx, out, budget):
     n = bud(budget, 150, 15000)
     cases = [(make_case(rng, rng.randint(1, 10)), CONFIGS[k % len(CONFIGS)]) for k in range(n)]
     run_cases(ctx, out, cases, "gen")
-    out.partial = ["end-to-end round trip over whole graphs: implementation oracle + model correspondence, no theorem"]
+    out.partial = ["outside the fragment of json_roundtrip_coll (sofa URIs, ...) and for the configurations with an embedded type system (only the type system itself: json_full_ts_same): implementation oracle + model correspondence only"]
 
 
 def replay(ctx, payload):
